@@ -77,7 +77,8 @@ structure Params where
   /-- naive resp. aware `datetime.datetime` -/
   N : Type
   T : Type
-  /-- `value.astimezone()` for a naive value; `none` = OverflowError/OSError -/
+  /-- `value.astimezone()` for a naive value; `none` = it raises (ValueError/OverflowError/OSError,
+  all reported as `valueError`) -/
   localize : N → Option T
   /-- `value.isoformat("T", "milliseconds")` -/
   iso : T → Str
@@ -150,10 +151,11 @@ def neDefault (P : Params) (d : Desc) (v : PyVal P) : Bool :=
 def pyIntRepr (i : Int) : Str :=
   if i < 0 then '-' :: Nat.toDigits 10 i.natAbs else Nat.toDigits 10 i.natAbs
 
-/-- `str.isspace` characters (what `int()` strips) -/
+/-- what `int()` strips: C `isspace` for ASCII (U+001C–U+001F are *not* stripped, unlike
+`str.strip`), `str.isspace` beyond ASCII (`_PyUnicode_TransformDecimalAndSpaceToASCII`) -/
 def isPySpace (c : Char) : Bool :=
   let n := c.toNat
-  (decide (9 ≤ n) && decide (n ≤ 13)) || (decide (28 ≤ n) && decide (n ≤ 32)) || n == 0x85 || n == 0xA0 ||
+  (decide (9 ≤ n) && decide (n ≤ 13)) || n == 32 || n == 0x85 || n == 0xA0 ||
   n == 0x1680 || (decide (0x2000 ≤ n) && decide (n ≤ 0x200A)) || n == 0x2028 || n == 0x2029 ||
   n == 0x202F || n == 0x205F || n == 0x3000
 
@@ -261,7 +263,7 @@ def toXml (P : Params) (d : Desc) (v : PyVal P) : Except Err Str :=
     | _ => .error .typeError
   | .datetime =>
     match v with
-    | .naive n => match P.localize n with | some t => .ok (reSet (P.iso t)) | none => .error .overflowError
+    | .naive n => match P.localize n with | some t => .ok (reSet (P.iso t)) | none => .error .valueError
     | .aware t => .ok (reSet (P.iso t))
     | _ => .error .typeError
   | .enum e _ =>
@@ -439,20 +441,32 @@ structure Params.Lawful (P : Params) : Prop where
   iso_shape : ∀ t, IsoShape (P.iso t)
   iso_xml : ∀ t, xmlOk (P.iso t) = true
   trunc_idem : ∀ t, P.truncMs (P.truncMs t) = P.truncMs t
-  /-- HTML repair is idempotent and keeps the empty string -/
-  repair_idem : ∀ s r, P.repair s = some r → P.repair r = some r
+  /-- HTML repair keeps the empty string. (Idempotence is *not* a law: libxml2 re-escapes the
+  raw-text content of `<script>`/`<style>` on every pass; see `htmlStable`.) -/
   repair_nil : P.repair [] = some []
 
 /-- an HTML value is usable iff `repair_html` accepts it and lxml accepts the result -/
 def htmlValid (P : Params) (s : Str) : Bool :=
   match P.repair s with | some r => xmlOk r | none => false
 
-/-- the value domain of a descriptor (`None` = delete is always allowed) -/
+/-- `repair_html` is a fixpoint after one pass on this fragment -/
+def htmlStable (P : Params) (s : Str) : Bool :=
+  match P.repair s with | some r => decide (P.repair r = some r) | none => false
+
+/-- the inputs on which reading back is a fixpoint: everything, except HTML fragments on which
+`repair_html` is not idempotent -/
+def stableAt (P : Params) (d : Desc) (v : PyVal P) : Bool :=
+  match d.kind, v with
+  | .html, .str s => htmlStable P s
+  | _, _ => true
+
+/-- the value domain of a descriptor (`None` = delete is always allowed). With
+`CAPELLAMBSE_XHTML=1` the getter repairs again, so an HTML value must then be repair-stable. -/
 def valid (P : Params) (d : Desc) (v : PyVal P) : Bool :=
   match d.kind, v with
   | _, .none => true
   | .string, .str s => xmlOk s
-  | .html, .str s => htmlValid P s
+  | .html, .str s => htmlValid P s && (!P.xhtml || htmlStable P s)
   | .bool, .bool _ => true
   | .int, .int _ => true
   | .int, .bool _ => true
